@@ -189,6 +189,7 @@ func (n *ResponderInterceptor) Close() error {
 	}
 
 	// no lock is held here: a resend goroutine takes streamsMu and the buffer mutex of its stream
+	verifhook.Gate("nack.responder.closing", n)
 	n.resendWg.Wait()
 
 	return nil
